@@ -158,18 +158,23 @@ def bounded(ctx):
                 ovs.append(o)
             for pid, pname in (("assembly", "assembly"), ("pXY_001", "my_plasmid"), ("A" * 16, "n")):
                 evals += 1
-                feats = bc.feature_tables(12, small=True)
                 mods = []
                 for i in range(chain_len):
-                    t = ba.clean(rng, rng.randint(4, 9), e)
-                    text = ba.build_module(e, ovs[i], t, ovs[i + 1], rng)
+                    text = None
+                    while text is None:   # (some overhang/target pairs spell a recognition site: draw another target)
+                        t = ba.clean(rng, rng.randint(4, 9), e)
+                        text = ba.build_module(e, ovs[i], t, ovs[i + 1], rng)
                     r = rng.randrange(len(text))
                     rec = CircularRecord(Seq(ba.rotate(text, r)), id="mod%d" % i, name="mod%d" % i,
                                          annotations={"topology": "circular", "molecule_type": "DNA"})
                     mods.append(Mod(rec))
-                stray_text = ba.build_module(e, ovs[chain_len + 1], "ACGTAC", ovs[1] if chain_len > 1 else ovs[chain_len + 1], rng)
+                stray_text = None
+                while stray_text is None:
+                    stray_text = ba.build_module(e, ovs[chain_len + 1], ba.clean(rng, 6, e), ovs[1] if chain_len > 1 else ovs[chain_len + 1], rng)
                 stray = Mod(CircularRecord(Seq(stray_text), id="stray", name="stray"))
                 vtext, vfrag = ba.build_vector(e, ovs[chain_len], ovs[0], rng)
+                if vtext is None:
+                    continue
                 vec = Vec(CircularRecord(Seq(ba.rotate(vtext, rng.randrange(len(vtext)))), id="vec", name="vec",
                                          annotations={"topology": "circular", "molecule_type": "DNA"}))
                 with_stray = rng.random() < 0.4 and chain_len == 1
